@@ -73,6 +73,7 @@ func main() {
 	exportDir := flag.String("export", "/verif/engine/export", "export files to inject (mirrors repo layout)")
 	out := flag.String("out", "/verif/.build/ov", "output directory")
 	probeFile := flag.String("probes", "/verif/engine/probes.json", "probe configuration")
+	as := flag.String("as", "", "development aid: read the sources from -repo (a scratch worktree at the same commit) but key the overlay as if they were at this path, so that the harness (which imports /repo) is built with the worktree's code while /repo stays untouched")
 	flag.Parse()
 
 	if b, err := os.ReadFile(*probeFile); err == nil {
@@ -179,6 +180,28 @@ func main() {
 		return nil
 	})
 
+	if *as != "" {
+		// files the worktree changed but the rewriter had no reason to touch, and files outside the rewritten
+		// packages (the SDK module), must reach the build too
+		changed := runOut(*repo, "git", "diff", "--name-only", "HEAD") + runOut(*repo, "git", "ls-files", "--others", "--exclude-standard")
+		for _, rel := range strings.Fields(changed) {
+			if !strings.HasSuffix(rel, ".go") || strings.HasSuffix(rel, "_test.go") {
+				continue
+			}
+			src := filepath.Join(*repo, rel)
+			if _, err := os.Stat(src); err != nil {
+				fatal("-as: %s was removed in the worktree; removals are not supported", rel)
+			}
+			if _, ok := overlay[src]; !ok {
+				overlay[src] = src
+			}
+		}
+		re := map[string]string{}
+		for k, v := range overlay {
+			re[filepath.Join(*as, strings.TrimPrefix(k, *repo+"/"))] = v
+		}
+		overlay = re
+	}
 	b, _ := json.MarshalIndent(map[string]any{"Replace": overlay}, "", " ")
 	must(os.WriteFile(filepath.Join(tmpOut, "overlay.json"), b, 0644))
 	st, _ := json.MarshalIndent(map[string]any{"files_rewritten": nfiles, "rules": total, "unsupported": unsupported}, "", " ")
